@@ -112,16 +112,65 @@ def _run_one(i):
     return res
 
 
+def _child(i, conn):
+    try:
+        res = _run_one(i)
+    except BaseException as e:   # never let a worker die silently
+        res = {'name': _OBLIGATIONS[i].name, 'bounds': _OBLIGATIONS[i].bounds, 'status': 'error',
+               'reason': 'worker failed: %s: %s' % (type(e).__name__, e), 'trace': traceback.format_exc()[-2000:]}
+    try:
+        conn.send(res)
+    finally:
+        conn.close()
+
+
 def run_obligations(obligations, nproc=None):
+    """one forked process per obligation (at most nproc at a time), each under a hard wall-clock
+    limit: a worker that dies (solver crash) or hangs is reported as inconclusive, never lost."""
     global _OBLIGATIONS
     _OBLIGATIONS = obligations
     nproc = nproc or int(os.environ.get('VERIF_NPROC', '16'))
-    idx = list(range(len(obligations)))
-    if nproc == 1 or len(obligations) == 1:
-        return [_run_one(i) for i in idx]
+    if nproc == 1:
+        return [_run_one(i) for i in range(len(obligations))]
     ctxm = mp.get_context('fork')
-    with ctxm.Pool(min(nproc, len(obligations))) as pool:
-        return pool.map(_run_one, idx, chunksize=1)
+    pending = list(range(len(obligations)))
+    running = {}
+    results = [None] * len(obligations)
+    while pending or running:
+        while pending and len(running) < nproc:
+            i = pending.pop(0)
+            parent, child = ctxm.Pipe(duplex=False)
+            p = ctxm.Process(target=_child, args=(i, child))
+            p.start()
+            child.close()
+            running[i] = (p, parent, time.time())
+        time.sleep(0.02)
+        for i in list(running):
+            p, conn, t0 = running[i]
+            ob = obligations[i]
+            got = None
+            if conn.poll():
+                try:
+                    got = conn.recv()
+                except EOFError:
+                    got = None
+                p.join(5)
+                if got is None:
+                    got = {'name': ob.name, 'bounds': ob.bounds, 'status': 'inconclusive',
+                           'reason': 'worker process died (exit code %s)' % p.exitcode}
+            elif not p.is_alive():
+                got = {'name': ob.name, 'bounds': ob.bounds, 'status': 'inconclusive',
+                       'reason': 'worker process died (exit code %s)' % p.exitcode}
+            elif time.time() - t0 > ob.max_seconds * 2 + 120:
+                p.kill()
+                p.join(5)
+                got = {'name': ob.name, 'bounds': ob.bounds, 'status': 'inconclusive',
+                       'reason': 'hard wall-clock limit (%.0fs) exceeded' % (ob.max_seconds * 2 + 120)}
+            if got is not None:
+                results[i] = got
+                conn.close()
+                del running[i]
+    return results
 
 
 # ------------------------------------------------------------------------------------------
